@@ -373,8 +373,8 @@ func runTx(c *fw.Ctx, r *fw.Rand, env *sut.Env, ss *sut.SMTPSession, naming, com
 	sort.Strings(classes)
 
 	// Ending.
-	ending := r.Weighted([]int{60, 8, 8, 6, 6, 6, 6, 10})
-	endName := []string{"data", "rset", "ehlo", "second-mail", "quit", "close", "data-no-rcpt-check", "oversize"}[ending]
+	ending := r.Weighted([]int{60, 8, 8, 6, 6, 6, 6, 10, 6})
+	endName := []string{"data", "rset", "ehlo", "second-mail", "quit", "close", "data-no-rcpt-check", "oversize", "close-mid-data"}[ending]
 	msg := genMessage(r)
 	if ending == 7 {
 		// Larger than the small limit some sessions run with: refused there (no RSET follows, the
@@ -410,6 +410,22 @@ func runTx(c *fw.Ctx, r *fw.Rand, env *sut.Env, ss *sut.SMTPSession, naming, com
 				fail("C01:reply-shape", err.Error())
 				return false
 			}
+		}
+	case 8:
+		// The client vanishes in the middle of the data block: never completed, nothing stored.
+		rep, err := ss.Cmd("DATA")
+		if err != nil {
+			fail("C01:reply-shape", err.Error())
+			return false
+		}
+		if rep.Code == 354 {
+			stuffed := sut.DotStuff(msg.raw)
+			cut := r.Intn(len(stuffed) - 3)
+			ss.Q.Send(stuffed[:cut])
+		}
+		if !ss.Close() {
+			c.Hang("smtp-session-end", "SMTP session did not end after the client closed mid-DATA", "")
+			return false
 		}
 	case 1:
 		if _, err := ss.Cmd("RSET"); err != nil {
@@ -563,7 +579,7 @@ func runTx(c *fw.Ctx, r *fw.Rand, env *sut.Env, ss *sut.SMTPSession, naming, com
 	if (expectStore && len(wants) > 0) || nonStored > 0 {
 		*sig += combo + "|" + strings.Join(classes, ",") + "|" + endName + ";"
 	}
-	return ending != 4 && ending != 5
+	return ending != 4 && ending != 5 && ending != 8
 }
 
 func texts(as []gen.Addr) []string {
